@@ -1,7 +1,8 @@
 """C16 - XML namespaces resolve by lexical scope and lose no attribute.
 
-proof      : coq/Props/C16.v (stack invariant, scope and attribute theorems outside the
-             finding classes, refutation witnesses for the findings)
+proof      : coq/Props/C16.v (stack invariant, lexical scope, scope and attribute theorems at full
+             strength for every token stream; the three findings of the first round are repaired in
+             /repo by df982ff and 8f1ed74 and the model mirrors the repaired code)
 tie        : correspondence - (1) raw tags -> tokens: model finish_attribute/process_qname vs the
              token stream recorded from XmlTokenizer; (2) recorded tokens -> tree (+ number of
              tree-builder parse errors): model tree builder vs XmlTreeBuilder+RcDom
@@ -370,58 +371,26 @@ def split_name(raw):
     return None, raw
 
 
-def spec_tag(raw_attrs, quirks):
-    """declarations {prefix: uri-or-None} and the non-declaration attributes [(prefix, local, value)] of one tag.
-    quirks (each one emulates one known root cause; the property itself is quirks = {}):
-      R  tokenizer duplicate test compares the raw new name with the stored local names
-      X  an attribute with local name xmlns and a prefix other than xmlns is dropped
-      L  of several xmlns:p declarations for the same p the last one wins (unbound if any is empty)"""
-    attrs = list(raw_attrs)
-    if "R" in quirks:
-        kept = []
-        for n, v in attrs:
-            if any(split_name(kn)[1] == n for kn, _ in kept):
-                continue
-            kept.append((n, v))
-        attrs = kept
-    values = {}                         # declared key -> all values given for it, textual order
-    order = []
+def spec_tag(raw_attrs):
+    """declarations {prefix: uri-or-None} and the non-declaration attributes [(prefix, local, value)] of one tag"""
+    values = {}                         # declared key -> value of the FIRST attribute declaring it
     others = []
-    for n, v in attrs:
+    for n, v in raw_attrs:
         p, l = split_name(n)
         if p is None and l == "xmlns":
             key = None
         elif p == "xmlns":
             key = l
         else:
-            if l == "xmlns" and "X" in quirks:
-                continue
-            others.append((p, l, v))
+            others.append((p, l, v))    # p:xmlns is an ordinary attribute
             continue
-        if key not in values:
-            values[key] = []
-            order.append(key)
-        values[key].append(v)
+        values.setdefault(key, v)       # a later attribute with the same name is a duplicate attribute
     decls = {}
-    for key in order:
+    for key, v in values.items():
         if key in ("xml", "xmlns"):
             continue                    # fixed
-        vs = values[key]
-        if "L" in quirks and key is not None:
-            state = "absent"
-            for v in reversed(vs):
-                if v == XMLNS_URI:
-                    continue
-                if v == "":
-                    state = None
-                elif state == "absent":
-                    state = v
-            if state != "absent":
-                decls[key] = state
-        else:
-            v = vs[0]                   # a later attribute with the same name is a duplicate attribute
-            if v != XMLNS_URI:          # the xmlns URI cannot be bound
-                decls[key] = v if v != "" else None
+        if v != XMLNS_URI:              # the xmlns URI cannot be bound
+            decls[key] = v if v != "" else None
     return decls, others
 
 
@@ -436,7 +405,7 @@ def lookup(prefix, scopes):
     return ""
 
 
-def expected_tree_names(tags, tree, quirks):
+def expected_tree_names(tags, tree):
     """walk the implementation's tree; the k-th element in document order was created by the k-th
     start/empty tag of the source.  Returns None if everything matches, else a description."""
     creators = [t for t in tags if t[1] in ("GS", "GM")]
@@ -446,7 +415,7 @@ def expected_tree_names(tags, tree, quirks):
         if k >= len(creators):
             return "tree has more elements than the source has start/empty tags"
         _, _, rawname, raw_attrs = creators[k]
-        memo[id(el)] = spec_tag(raw_attrs, quirks)
+        memo[id(el)] = spec_tag(raw_attrs)
         k += 1
         decls, others = memo[id(el)]
         scopes = [decls] + [memo[id(a)][0] for a in reversed(anc)]
@@ -469,30 +438,9 @@ def expected_tree_names(tags, tree, quirks):
     return None
 
 
-def dup_test_sensitive(raw_attrs):
-    """a tag on which the tokenizer's raw-vs-local duplicate test and an exact-name test give different answers"""
-    for j, (nj, _) in enumerate(raw_attrs):
-        for ni, _ in raw_attrs[:j]:
-            if (split_name(ni)[1] == nj) != (ni == nj):
-                return True
-    return False
-
-
-QUIRK_NAMES = {"R": "raw-vs-local-duplicate-test", "X": "prefixed-xmlns-attribute-dropped",
-               "L": "duplicate-prefixed-declaration-last-wins"}
-
-
 def c16_oracle(tags, tree):
-    """(None, None) if the property holds; else (description, minimal set of known root causes that
-    reproduce the tree, or None if no combination does)"""
-    why = expected_tree_names(tags, tree, frozenset())
-    if why is None:
-        return None, None
-    for n in (1, 2, 3):
-        for qs in itertools.combinations("LRX", n):
-            if expected_tree_names(tags, tree, frozenset(qs)) is None:
-                return why, qs
-    return why, None
+    """None if the property holds on this tree, else a description of the first mismatch"""
+    return expected_tree_names(tags, tree)
 
 
 # ----------------------------------------------------------------------------- running
@@ -545,18 +493,6 @@ def build_all(ck):
     return proofs_ok, bindir, model
 
 
-def fewer_findings(tags, impl_tree, model_tree):
-    """names of the known root causes the pinned model shows on this input and the implementation does not
-    (None if that is not the situation): a repair in /repo, not a broken tie"""
-    why, qs = c16_oracle(tags, impl_tree)
-    if why is not None and qs is None:
-        return None
-    mwhy, mqs = c16_oracle(tags, model_tree)
-    if mwhy is None or mqs is None or not set(qs or ()) < set(mqs):
-        return None
-    return "+".join(QUIRK_NAMES[q] for q in sorted(set(mqs) - set(qs or ())))
-
-
 def tolerated_fix(ck, what):
     note = "implementation satisfies the property where the model (pinned commit) shows a known finding: " + what
     if note not in ck.notes:
@@ -586,7 +522,7 @@ def run(ck):
     raw_out = dict(zip(idx_raw, ck.run_lines(model, [], raw_lines)))
 
     stats = {"cases": len(cases), "structured": len(idx_raw), "elements": 0, "attrs_checked": 0, "namespaced_names": 0,
-             "oracle_fail": 0, "known": {}, "corr_tokens": 0, "corr_tree": 0, "panics": 0}
+             "oracle_fail": 0, "corr_tokens": 0, "corr_tree": 0, "panics": 0}
     nontrivial = 0
     bad_corr = 0
     for i, ((x, doc), o) in enumerate(zip(cases, impl)):
@@ -606,10 +542,10 @@ def run(ck):
         tree_agrees = (m.get("TREE") == impl_tree and m.get("ERRS") == impl_errs)
         stats["corr_tree"] += 1
         # --- oracle
-        why = qs = None
+        why = None
         if doc is not None:
             tags = [t for t in doc if t[0] == "tag"]
-            why, qs = c16_oracle(tags, tree)
+            why = c16_oracle(tags, tree)
             for el, _ in elements_preorder(tree):
                 stats["attrs_checked"] += len(el[4])
                 stats["namespaced_names"] += (1 if el[2] else 0) + sum(1 for a in el[4] if a[1])
@@ -623,36 +559,13 @@ def run(ck):
             tokens_agree = (model_tags == impl_tags)
         else:
             tokens_agree = True
-            why, qs = c16_oracle(tags_from_tokens(toks), tree)
+            why = c16_oracle(tags_from_tokens(toks), tree)
         if why is not None:
             stats["oracle_fail"] += 1
             payload = {"kind": "failing-input", "xml": x, "doc": doc, "impl_tree": sec["TREE"], "oracle": why}
-            if qs is None:
-                ck.violation("namespace/attribute resolution differs from the lexical-scope resolver: " + why, payload,
-                             case_class="C16:unexplained")
-            else:
-                for q in qs:
-                    cls = "C16:" + QUIRK_NAMES[q]
-                    stats["known"][cls] = stats["known"].get(cls, 0) + 1
-                    ck.violation("namespace/attribute resolution differs from the lexical-scope resolver: " + why,
-                                 payload, case_class=cls)
+            ck.violation("namespace/attribute resolution differs from the lexical-scope resolver: " + why, payload,
+                         case_class="C16:resolver-mismatch")
         if not (tree_agrees and tokens_agree):
-            # the model is the pinned code; if the implementation now satisfies the property on a case where
-            # the model shows a known finding, the defect was repaired in /repo - not a broken tie
-            if why is None or qs is not None:
-                impl_q = set(qs or ())
-                src_tags = [t for t in doc if t[0] == "tag"] if doc is not None else tags_from_tokens(toks)
-                mt = sections(raw_out[i]).get("TREE") if doc is not None else m.get("TREE")
-                if mt is not None:
-                    model_why, mqs = c16_oracle(src_tags, parse_tree(mt))
-                    if model_why is not None and mqs is not None and impl_q < set(mqs):
-                        tolerated_fix(ck, "+".join(QUIRK_NAMES[q] for q in sorted(set(mqs) - impl_q)))
-                        continue
-                if tree_agrees and doc is not None and any(dup_test_sensitive(t[3]) for t in src_tags):
-                    # same tree, different token stream, on a tag where the raw-vs-local duplicate test and a
-                    # correct one differ (the tree builder's own de-duplication hides it): tokenizer repaired
-                    tolerated_fix(ck, QUIRK_NAMES["R"] + " (token stream only)")
-                    continue
             bad_corr += 1
             if bad_corr <= 3:
                 ck.broken.append("correspondence xmlns model vs xml5ever (%s): xml %r impl tree %r errs %s model %r raw-model %r"
@@ -678,4 +591,5 @@ def run(ck):
                  "the element <-> creating tag association of the oracle (k-th element in document order = k-th start/empty tag)"],
         assumptions=["attribute = non-declaration attribute (xmlns / xmlns:p are consumed into the scope)",
                      "an attribute with an unbound prefix has an expanded name different from every unprefixed attribute",
-                     "of duplicate declarations of one prefix in one tag the first counts (as for any duplicate attribute)"])
+                     "of duplicate declarations of one prefix in one tag the first counts (as for any duplicate attribute)",
+                     "attribute order is not part of the property (compared as multisets)"])
